@@ -74,6 +74,9 @@ pub enum Kind {
     Symlink(String),
     /// another name (hard link) of the regular file at this root-relative path
     Hardlink(String),
+    /// a named pipe whose writer has written `bytes` and hangs up when the reader starts to read
+    /// (what `<(cmd)` or `mkfifo` + a producer look like to the reader: size 0, no mmap, no seek)
+    Fifo,
 }
 
 #[derive(Clone, Debug, Serialize, Deserialize, PartialEq, Eq)]
@@ -100,6 +103,14 @@ impl FileSpec {
             kind: Kind::Dir,
             bytes: Blob::default(),
             mode: 0o755,
+        }
+    }
+    pub fn fifo(path: impl Into<String>, bytes: impl Into<Blob>) -> Self {
+        Self {
+            path: path.into(),
+            kind: Kind::Fifo,
+            bytes: bytes.into(),
+            mode: 0o644,
         }
     }
     pub fn hardlink(path: impl Into<String>, target: impl Into<String>) -> Self {
